@@ -715,6 +715,281 @@ def check_air(chunks, start, stop):
     return None
 
 
+# --------------------------------------------------------------------------- histories: ONE long-lived app, many requests
+# DirectoryApp/FileApp are treated by the property as pure functions of (configuration, file system, request).  A history
+# runs a sequence of different requests, interleaved with changes of the served files, through ONE instance; every answer
+# must equal the answer of a brand-new identically constructed instance (and the reference), and the instance's
+# configuration attributes must not change.
+def expect_for(rh, n):
+    """Expected slice for the three canonical Range spellings, else None (self-consistency only)."""
+    if rh is None:
+        return "ignore"
+    m = re.fullmatch(r"bytes=(\d+)-(\d+)", rh)
+    if m:
+        return rfc_slice("first-last", int(m.group(1)), int(m.group(2)), n)
+    m = re.fullmatch(r"bytes=(\d+)-", rh)
+    if m:
+        return rfc_slice("first-", int(m.group(1)), 0, n)
+    m = re.fullmatch(r"bytes=-(\d+)", rh)
+    if m:
+        return rfc_slice("-suffix", int(m.group(1)), 0, n)
+    return None
+
+
+def rand_req_step(rng, n):
+    meth = rng.choice(["GET"] * 5 + ["HEAD", "HEAD", "POST", "PUT"])
+    rh = None
+    if rng.random() < 0.55:
+        form = rng.choice(RANGE_FORMS)
+        a, b = rng.randrange(0, n + 3), rng.randrange(0, n + 3)
+        if form == "first-last" and a > b:
+            a, b = b, a
+        rh = range_header(form, a, b)
+    if rng.random() < 0.5:
+        bs, wr = rng.choice([1, 2, 3, 5, 8, 65536]), None
+    else:
+        bs, wr = None, [rng.randrange(0, 5) for _ in range(rng.randrange(0, 4))]
+    return meth, rh, wr, bs
+
+
+def gen_file_history(rng, nsteps):
+    """Steps on one path: ['req', method, range, wrapper, bs, caps] | ['write', hex, mtime] | ['unlink'] | ['mkdir'] |
+    ['unreadable', bool]"""
+    steps = [["write", bytes(rng.randrange(256) for _ in range(rng.randrange(0, 12))).hex(), MTIME]]
+    n = len(steps[0][1]) // 2
+    for i in range(nsteps):
+        r = rng.random()
+        if r < 0.70:
+            meth, rh, wr, bs = rand_req_step(rng, n)
+            caps = [rng.randrange(0, 4) for _ in range(rng.randrange(0, 4))] if wr is None and rng.random() < 0.3 else []
+            steps.append(["req", meth, rh, wr, bs, caps])
+        elif r < 0.90:
+            n = rng.choice([0, 1, 2, 3, 5, 8, 13, n, n + 1, max(0, n - 1)])
+            same_len = rng.random() < 0.3
+            steps.append(["write", bytes(rng.randrange(256) for _ in range(n)).hex(),
+                          MTIME + (0 if same_len and rng.random() < 0.5 else 1000 * (i + 1))])
+        elif r < 0.94:
+            steps.append(["unlink"])
+            n = 0
+        elif r < 0.97:
+            steps.append(["mkdir"])
+            n = 0
+        else:
+            steps.append(["unreadable", rng.random() < 0.6])
+    return steps
+
+
+def fileapp_state(app):
+    return (app.filename, sorted((k, repr(v)) for k, v in app.kw.items()))
+
+
+def run_file_history(T, steps, record=None):
+    """Run the steps with one long-lived FileApp; compare each answer with a fresh FileApp's and with the property.
+    Returns (key, message) or None.  `record` collects (node, step, observation of the long-lived app)."""
+    from webob.static import FileApp
+    p = os.path.join(T, "hist.bin")
+    file_case._cur = None
+
+    def clear():
+        _UNREADABLE.discard(p)
+        if os.path.isdir(p):
+            os.rmdir(p)
+        elif os.path.exists(p):
+            os.unlink(p)
+    clear()
+    live = None
+    state0 = None
+    node = None                                  # None | ("d",) | ("f", bytes, readable)
+    try:
+        for i, st_ in enumerate(steps):
+            op = st_[0]
+            if op == "write":
+                clear()
+                content = bytes.fromhex(st_[1])
+                with open(p, "wb") as f:
+                    f.write(content)
+                os.utime(p, (st_[2], st_[2]))
+                node = ("f", content, True)
+            elif op == "unlink":
+                clear()
+                node = None
+            elif op == "mkdir":
+                clear()
+                os.mkdir(p)
+                node = ("d",)
+            elif op == "unreadable":
+                if node is not None and node[0] == "f":
+                    node = ("f", node[1], not st_[1])
+                    (_UNREADABLE.discard if not st_[1] else _UNREADABLE.add)(p)
+            else:
+                _, meth, rh, wr, bs, caps = st_
+                if live is None:
+                    live = FileApp(p)
+                    state0 = fileapp_state(live)
+                fresh = FileApp(p)
+                outs = []
+                for app in (live, fresh):
+                    if caps:
+                        app._open = (lambda c: lambda fn, mode: ShortReader(_shim_open(fn, mode), c))(list(caps))
+                    outs.append(get_full(app, blank("/h", meth, rh, wr), bs))
+                    if caps:
+                        app._open = _shim_open
+                a, b = outs
+                where = "step %d %r of the history" % (i, st_)
+                if a != b:
+                    return ("history:fileapp-differs-from-fresh",
+                            "%s: the long-lived FileApp answers %r, a fresh FileApp answers %r"
+                            % (where, _short(a), _short(b)))
+                if fileapp_state(live) != state0:
+                    return ("history:fileapp-state-changed", "%s changed the FileApp's attributes: %r -> %r"
+                            % (where, state0, fileapp_state(live)))
+                if record is not None:
+                    record.append((node, st_, a))
+                if meth not in ("GET", "HEAD"):
+                    want = 405
+                elif node is None:
+                    want = 404
+                elif node[0] == "d" or not node[2]:
+                    want = 403
+                else:
+                    want = None
+                    m = check_file_response(node[1], meth, rh, a, expect_for(rh, len(node[1])))
+                    if m:
+                        return (hkey(m[0]), "%s: %s" % (where, m[1]))
+                if want is not None and (isinstance(a, fw.Err) or a[0] != want):
+                    return ("history:fileapp-wrong-status", "%s answered %r, expected %d"
+                            % (where, a if isinstance(a, fw.Err) else a[0], want))
+    finally:
+        clear()
+    return None
+
+
+def hkey(k):
+    return k if k.startswith("history:") else "history:" + k
+
+
+def _short(r):
+    if isinstance(r, fw.Err):
+        return r
+    return (r[0], [h for h in r[1] if h[0] in ("Content-Length", "Content-Range", "Last-Modified", "Location")], r[2][:40])
+
+
+def gen_dir_history(rng, tree, nsteps):
+    """Steps: ['req', url, method, range, wrapper, bs] | ['write', relpath, hex] | ['unlink', relpath]"""
+    nodes = tree_nodes(tree)
+    names = names_of(tree)
+    steps = []
+    removed = []
+    for i in range(nsteps):
+        r = rng.random()
+        inside_files = sorted(k for k, v in nodes.items() if v[0] == "f" and k.startswith(ROOT_REL + "/"))
+        inside_dirs = sorted(k for k, v in nodes.items() if v[0] == "d" and (k == ROOT_REL or k.startswith(ROOT_REL + "/")))
+        if r < 0.78 or not inside_dirs:
+            if rng.random() < 0.5 and inside_files + inside_dirs:
+                rel = rng.choice(inside_files + inside_dirs)[len(ROOT_REL):]
+                url = urllib.parse.quote(rel) + rng.choice(["", "", "/"]) or "/"
+                if rng.random() < 0.2:
+                    url = "/." + url
+            else:
+                url = rand_url(rng, names)
+            meth, rh, wr, bs = rand_req_step(rng, 8)
+            steps.append(["req", url, meth, rh, wr, bs])
+        elif r < 0.90:
+            if inside_files and rng.random() < 0.6:
+                rel = rng.choice(inside_files)
+            elif removed and rng.random() < 0.5:
+                rel = removed.pop()
+                if rel.rsplit("/", 1)[0] not in nodes or rel in nodes:
+                    continue
+            else:
+                rel = rng.choice(inside_dirs) + "/" + rng.choice(["index.html", "idx", "new.txt", "f.txt"])
+                if rel in nodes:
+                    if nodes[rel][0] != "f":
+                        continue
+            content = bytes(rng.randrange(256) for _ in range(rng.choice([0, 1, 2, 3, 5, 8, 13])))
+            nodes[rel] = ("f", content, True)
+            steps.append(["write", rel, content.hex()])
+        elif inside_files:
+            rel = rng.choice(inside_files)
+            del nodes[rel]
+            removed.append(rel)
+            steps.append(["unlink", rel])
+    return steps
+
+
+def dirapp_state(app):
+    return (app.path, app.index_page, app.hide_index_with_redirect, sorted((k, repr(v)) for k, v in app.fileapp_kw.items()))
+
+
+def run_dir_history(T, mat, tree, idx, hide, steps):
+    """One long-lived DirectoryApp over a sequence of requests and file changes inside the root."""
+    mat.build(tree)
+    cur = [list(e) for e in tree]
+    live = dirapp(T, idx, hide)
+    state0 = dirapp_state(live)
+    for i, st_ in enumerate(steps):
+        if st_[0] == "write":
+            p = os.path.join(T, st_[1])
+            _UNREADABLE.discard(p)
+            with open(p, "wb") as f:
+                f.write(bytes.fromhex(st_[2]))
+            os.utime(p, (MTIME + 1000 * (i + 1), MTIME + 1000 * (i + 1)))
+            cur = [e for e in cur if e[0] != st_[1]] + [t_file(st_[1], bytes.fromhex(st_[2]))]
+            continue
+        if st_[0] == "unlink":
+            p = os.path.join(T, st_[1])
+            _UNREADABLE.discard(p)
+            os.unlink(p)
+            cur = [e for e in cur if e[0] != st_[1]]
+            continue
+        _, url, meth, rh, wr, bs = st_
+        req = blank(url, meth, rh, wr)
+        try:
+            req.path_info
+        except UnicodeDecodeError:
+            continue
+        a = get_full(live, req, bs)
+        b = get_full(dirapp(T, idx, hide), blank(url, meth, rh, wr), bs)
+        where = "step %d %r of the history" % (i, st_)
+        if a != b:
+            return ("history:dirapp-differs-from-fresh", "%s: the long-lived DirectoryApp answers %r, a fresh one answers %r"
+                    % (where, _short(a), _short(b)))
+        if dirapp_state(live) != state0:
+            return ("history:dirapp-state-changed", "%s changed the DirectoryApp's attributes: %r -> %r"
+                    % (where, state0, dirapp_state(live)))
+        if meth == "GET" and rh is None:
+            m, _r = check_dir_request(T, cur, idx, hide, url, live)
+            if m:
+                return (hkey(m[0]), "%s: %s" % (where, m[1]))
+        elif not isinstance(a, fw.Err) and a[0] in (200, 206):
+            exp = ref_expect(T, cur, idx, hide, req.path_info)
+            if exp[0] != "file" or not exp[2]:
+                return ("history:dirapp:200-without-file", "%s -> %d but it names no readable regular file inside the root (%r)"
+                        % (where, a[0], exp[0]))
+            m = check_file_response(exp[1], meth, rh, a, expect_for(rh, len(exp[1])))
+            if m:
+                return (hkey(m[0]), "%s: %s" % (where, m[1]))
+    return None
+
+
+def run_order_independence(T, mat, tree, idx, hide, reqs, perm):
+    """Module-level state: the same requests in two different orders within one process give the same answers."""
+    mat.build(tree)
+
+    def one(r):
+        url, meth, rh, wr, bs = r
+        return get_full(dirapp(T, idx, hide), blank(url, meth, rh, wr), bs)
+    first = [one(r) for r in reqs]
+    second = {}
+    for j in perm:
+        second[j] = one(reqs[j])
+    for j, r in enumerate(reqs):
+        if first[j] != second[j]:
+            return ("history:order-dependent", "request %r is answered %r when run in generation order and %r in another order"
+                    % (r, _short(first[j]), _short(second[j])))
+    return None
+
+
 # --------------------------------------------------------------------------- case records / replay
 def case_dir(tree, idx, hide, url, alt_outside=None, inside=None):
     c = {"kind": "dirapp", "tree": tree, "idx": idx, "hide": hide, "url": url}
@@ -763,6 +1038,18 @@ def oracle_case(ctx, T, mat, case):
             out.append(m)
     elif k == "root":
         m = check_root(T, mat, case["spelling"])
+        if m:
+            out.append(m)
+    elif k == "history-file":
+        m = run_file_history(T, case["steps"])
+        if m:
+            out.append(m)
+    elif k == "history-dir":
+        m = run_dir_history(T, mat, case["tree"], case["idx"], case["hide"], case["steps"])
+        if m:
+            out.append(m)
+    elif k == "history-order":
+        m = run_order_independence(T, mat, case["tree"], case["idx"], case["hide"], case["reqs"], case["perm"])
         if m:
             out.append(m)
     return out
@@ -848,6 +1135,40 @@ def coqchk(ctx):
         ctx.broken.append("coqchk rejected Props/C17.vo: " + out[-400:])
 
 
+def confirm_replays(ctx):
+    """A failure seen on a long-lived object or after other work in this process may not reproduce from its single-request
+    record.  Re-run every recorded failing case in a FRESH process; when some reproduce, keep those (the history:* records
+    carry the whole sequence) and drop the records that do not, so that every reported replay fails on the real code."""
+    import subprocess
+    import sys
+    import tempfile
+    vs = [v for v in ctx.violations if v.get("found_input") and isinstance(v.get("case"), dict) and v["case"].get("kind")]
+    if not vs:
+        return
+    main = os.path.join(fw.ROOT, "harness", "main.py")
+    repro = {}
+    for v in vs:
+        with tempfile.NamedTemporaryFile("w", suffix=".json", delete=False) as f:
+            json.dump({"case": v["case"]}, f, default=str)
+        try:
+            p = subprocess.run([sys.executable, "-B", main, ctx.prop, "--replay", f.name], capture_output=True, text=True,
+                               timeout=600, env=dict(os.environ))
+            repro[id(v)] = p.returncode == 1
+        except Exception:  # noqa
+            repro[id(v)] = True
+        finally:
+            os.unlink(f.name)
+    lost = [v for v in vs if not repro[id(v)]]
+    if lost and len(lost) < len(vs):
+        ctx.violations[:] = [v for v in ctx.violations if v not in lost]
+        ctx.note("failing observations made only after earlier requests in the same process/on the same object (their single-request "
+                 "record passes in a fresh process; represented by the reproducing records): "
+                 + ", ".join("%s x%d" % (v["key"], v["count"]) for v in lost))
+    elif lost:
+        for v in lost:
+            v["what"] += "  [seen only after earlier work in the same process; this single-request record passes in a fresh process]"
+
+
 def run(ctx):
     ctx.build(["Props/C17.vo"])
     if ctx.thorough and getattr(ctx, "build_ok", False):
@@ -861,6 +1182,7 @@ def run(ctx):
         file_case._cur = None
         shutil.rmtree(T, ignore_errors=True)
         globals()["_T"] = None
+    confirm_replays(ctx)
 
 
 def path_strings(rng, n):
@@ -951,10 +1273,11 @@ def _run(ctx, T, mat):
         names = names_of(tree)
         fixed_urls = ["/", "", "/..", "/../", "/%2e%2e/", "/../root2/", "/../root/", "/../root", "/index.html", "/index.html/",
                       "/sub", "/sub/", "/../../", "/../index.html", "/../other", "/../nope"] if ti < 3 else []
+        apps = {}                       # ONE DirectoryApp per (tree, settings) serves all of that tree's cases
         for j in range(per_tree):
             idx, hide = rng.choice(CFGS)
             url = fixed_urls[j] if j < len(fixed_urls) else rand_url(rng, names)
-            app = dirapp(T, idx, hide)
+            app = apps.get((idx, hide)) or apps.setdefault((idx, hide), dirapp(T, idx, hide))
             req = blank(url)
             try:
                 pi, purl, qs = req.path_info, req.path_url, req.query_string
@@ -1302,6 +1625,54 @@ def _run(ctx, T, mat):
                     ctx.fail(m[0], m[1], {"kind": "air", "chunks": [c.hex() for c in chunks], "start": start, "stop": stop}, True, "air")
     ctx.oracle_count("air", nE, nE)
 
+    # ------------------------------------------------------------------ oracle F: histories (one long-lived app, many requests)
+    rng = ctx.sub_rng("histories")
+    nF = 0
+    hcases = []
+    for _ in range(ctx.scale(250, 2500)):
+        steps = gen_file_history(rng, rng.randrange(6, 26))
+        rec = []
+        m = run_file_history(T, steps, rec)
+        nF += sum(1 for x in steps if x[0] == "req")
+        if m:
+            ctx.fail(m[0], m[1], {"kind": "history-file", "steps": steps}, True, "history")
+        for node, st_, obs_ in rec[:8] if len(hcases) < ctx.scale(400, 3000) else []:
+            _, meth, rh, wr, bs, caps = st_
+            r = Range.parse(rh) if rh else None
+            rp = None if r is None else (r.start, r.end)
+            if isinstance(obs_, fw.Err):
+                o = obs_
+            else:
+                cl = hdr(obs_[1], "Content-Length")
+                o = [obs_[0], hdr(obs_[1], "Location"), int(cl) if obs_[0] in (200, 206) and cl is not None else None,
+                     parse_cr(hdr(obs_[1], "Content-Range")), "", obs_[2] if obs_[0] in (200, 206) else b""]
+            kind = ("fi", bs, caps) if wr is None else ("wr", wr)
+            content = node[1] if node is not None and node[0] == "f" else b""
+            lit = "(%s, (let CONTENT := %s in mkFreq %s %s %s))" % (cnode(node), cstr(content), cstr(meth), crange(rp), ckind(kind))
+            hcases.append((lit, o, {"kind": "history-file", "steps": steps}))
+    bad = ctx.corr("fileapp-history", IMPORTS, "(fun c => v_resp (fileapp (fst c) (snd c)))", hcases, in_type="(node * freq)")
+    report_corr(ctx, "fileapp-history", bad, hcases, T, mat)
+    for ti, inside in enumerate(insides):
+        tree = full_tree(inside, rich if ti % 2 == 0 else rich2)
+        for idx, hide in (CFGS if ti == 0 else [CFGS[(ti + 2) % len(CFGS)], CFGS[(ti * 5 + 3) % len(CFGS)]]):
+            for _ in range(ctx.scale(2, 6)):
+                steps = gen_dir_history(rng, tree, rng.randrange(10, 41))
+                m = run_dir_history(T, mat, tree, idx, hide, steps)
+                nF += sum(1 for x in steps if x[0] == "req")
+                if m:
+                    ctx.fail(m[0], m[1], {"kind": "history-dir", "tree": tree, "idx": idx, "hide": hide, "steps": steps}, True, "history")
+        if ti < ctx.scale(4, 12):
+            idx, hide = CFGS[ti % len(CFGS)]
+            names = names_of(tree)
+            reqs = [[rand_url(rng, names)] + list(rand_req_step(rng, 8)) for _ in range(40)]
+            perm = list(range(len(reqs)))
+            rng.shuffle(perm)
+            m = run_order_independence(T, mat, tree, idx, hide, reqs, perm)
+            nF += 2 * len(reqs)
+            if m:
+                ctx.fail(m[0], m[1], {"kind": "history-order", "tree": tree, "idx": idx, "hide": hide, "reqs": reqs, "perm": perm}, True, "history")
+    ctx.oracle_count("history", nF, nF)
+
     ctx.extra["rule"] = (
         "correspondence: distinct generated inputs (os.path spellings; DirectoryApp decisions and end-to-end responses over %d generated "
         "directory trees x 7 index_page/hide settings x PATH_INFO spellings of <=5 segments over names/./../empty/backslash/%%2f/%%2e/%%5c; "
@@ -1309,7 +1680,9 @@ def _run(ctx, T, mat):
         "oracle: every PATH_INFO of <=min(%d,3) segments over a 13-segment alphabet, and of 4 segments over 9 of them in the thorough tier (with and without trailing slash) x 7 settings on the fixed tree, "
         "plus random spellings on each generated tree, each run under two different worlds outside the root (non-trivial = answered 200 or 301); "
         "FileApp: all three Range forms with every bound 0..n+2 on files of 0..10 bytes x 11 iterator configurations, sizes around the real "
-        "BLOCK_SIZE, arbitrary Range text; FileIter: all (seek, limit, block_size) on <=%d bytes; AppIterRange: all chunkings of %d bytes"
+        "BLOCK_SIZE, arbitrary Range text; FileIter: all (seek, limit, block_size) on <=%d bytes; AppIterRange: all chunkings of %d bytes; "
+        "histories: ONE FileApp / ONE DirectoryApp serving 6-40 different requests interleaved with rewrites/removals of the served files, "
+        "each answer compared with a fresh instance's and with the reference, plus the same requests in two orders"
         % (ntrees, depth, ctx.scale(5, 7), maxn))
     ctx.extra["exhaustive"] = False
     ctx.assume += [
